@@ -28,7 +28,18 @@ Definition history_oracle (input o : json) : option string :=
                            if (s <? 200)%N then ["too few " ++ nm ++ " digest lists observed"]
                            else if (i =? s)%N then ["the " ++ nm ++ " digest list is always in the order the claims were marked"]
                            else []) (combine (combine seen inorder) names) in
-    match bad with [] => if Nat.eqb (List.length seen) 3 then None else Some "summary incomplete" | b :: _ => Some b end.
+    (* decoys are appended after the real digests: without a shuffle the real ones are exactly the first entries,
+       also when there is a single real digest (one-claim credential) *)
+    let mseen := map numN (jlist (jget "mixed_lists_seen" o)) in
+    let mfirst := map numN (jlist (jget "mixed_lists_real_first" o)) in
+    let mnames := ["13-claim"; "one-claim"] in
+    let bad2 := flat_map (fun t : (N * N) * string => let '((s, i), nm) := t in
+                            if (s <? 200)%N then ["too few top-level digest lists with decoys observed for the " ++ nm ++ " credential"]
+                            else if (i =? s)%N then ["in the " ++ nm ++ " credential the real digests always precede the decoys: decoys are recognisable by position"]
+                            else []) (combine (combine mseen mfirst) mnames) in
+    match (bad ++ bad2)%list with
+    | [] => if Nat.eqb (List.length seen) 3 && Nat.eqb (List.length mseen) 2 then None else Some "summary incomplete"
+    | b :: _ => Some b end.
 
 Definition case_history (input obs : json) : verdict :=
   match history_oracle input obs with
